@@ -71,22 +71,21 @@ class World:
         td = dict(executable=self.probe, arguments=[], environment={}, pre_exec=[], post_exec=[], pre_launch=[], post_launch=[],
                   ranks=1, cores_per_rank=1, gpus_per_rank=0.0, threading_type='', gpu_type='', named_env=None,
                   pre_exec_sync=False, stdout=None, stderr=None, startup_timeout=0, services=[])
-        td.update(kw)
+        td.update({k: (v.replace('@ROOT@', self.root) if isinstance(v, str) else v) for k, v in kw.items()})
         t = dict(uid='task.000000', name='', description=td, task_sandbox_path=self.tsbox,
                  slots=[{'node_name': 'localhost', 'node_index': 0, 'cores': [{'index': 0, 'occupation': 1.0}], 'gpus': [], 'lfs': 0, 'mem': 0}])
-        so, se = td.get('stdout') or 'task.000000.out', td.get('stderr') or 'task.000000.err'
-        # what Popen._handle_task derives before the scripts are written
-        for key, f in (('stdout', so), ('stderr', se)):
-            if f[0] != '/':
-                t[key + '_file'], t[key + '_file_short'] = '%s/%s' % (self.tsbox, f), '$RP_TASK_SANDBOX/%s' % f
-            else:
-                t[key + '_file'] = t[key + '_file_short'] = f
         return t
 
     def run(self, task, rank_from_env=False, extra_env=None, exec_only=False):
         e, lm = self.executor(), self.launcher(rank_from_env)
-        exec_path, exec_full = e._create_exec_script(lm, task)
-        launch_path, launch_full = e._create_launch_script(lm, task, exec_path)
+        # the real Popen._handle_task: stdio file names, launcher lookup, both scripts;
+        # only the process spawn (_launch_task) is replaced - the scripts are run below
+        e._rm = Stub()
+        e._rm.find_launcher = lambda t: (lm, 'FORK')
+        e._launch_task = lambda t: None
+        e._handle_task(task)
+        launch_full = task['launch_path']
+        exec_full = os.path.join(self.tsbox, os.path.basename(task['exec_path']))
         env = {'PATH': os.environ.get('PATH', '/usr/bin:/bin'), 'HOME': self.root, 'PROBE_OUT': self.out, 'TRACE': self.trace,
                'RP_PILOT_SANDBOX_PRESET': '1'}
         env.update(extra_env or {})
@@ -115,6 +114,12 @@ def cases():
         out.append(('environment %r' % (ev,), dict(environment=ev), 'env'))
     out.append(('stdout / stderr named', dict(stdout='my.out', stderr='my.err'), 'stdio'))
     out.append(('stdout / stderr default', dict(), 'stdio'))
+    out.append(('stdout named, stderr default', dict(stdout='only.out'), 'stdio'))
+    out.append(('stdout default, stderr named', dict(stderr='only.err'), 'stdio'))
+    out.append(('stdout relative, stderr absolute', dict(stdout='rel.out', stderr='@ROOT@/abs.err'), 'stdio'))
+    out.append(('stdout absolute, stderr relative', dict(stdout='@ROOT@/abs.out', stderr='rel.err'), 'stdio'))
+    out.append(('stdout absolute, stderr default', dict(stdout='@ROOT@/abs2.out'), 'stdio'))
+    out.append(('stdout / stderr in a sub-directory of the sandbox', dict(stdout='logs/o.txt', stderr='logs/e.txt', pre_launch=['mkdir -p logs']), 'stdio'))
     out.append(('pre before, post after', dict(pre_exec=[_trace('pre')], post_exec=[_trace('post')], arguments=['x']), 'order'))
     out.append(('failing pre_exec', dict(pre_exec=['false'], post_exec=[_trace('post')]), 'pre-fails'))
     out.append(('failing post_exec', dict(post_exec=['false']), 'post-fails'))
@@ -233,7 +238,7 @@ def run_all(rp, tier='quick'):
 @builder('agent/executing/base.py:AgentExecutingComponent._get_rp_env', 'agent/executing/base.py:AgentExecutingComponent._get_prep_exec',
          'agent/executing/base.py:AgentExecutingComponent._get_task_env', 'agent/executing/base.py:AgentExecutingComponent._get_exec',
          'agent/executing/base.py:AgentExecutingComponent._get_launch', 'agent/launch_method/base.py:LaunchMethod.get_exec',
-         'agent/launch_method/base.py:LaunchMethod._create_arg_string')
+         'agent/launch_method/base.py:LaunchMethod._create_arg_string', 'agent/executing/popen.py:Popen._handle_task#stdio')
 def script_replay(case, rp):
     import fnmatch
     kf = json.load(open(os.path.join(os.path.dirname(os.path.dirname(os.path.abspath(__file__))), 'known_findings.json')))
